@@ -21,6 +21,7 @@ class Outcome:
         self.value = value
         self.exc = exc
         self.path = path
+        self.escaped = False    # CLI: the exception left main()
 
     def __repr__(self):
         if self.kind == 'return':
@@ -114,6 +115,7 @@ def cli(argv, cwd=None):
                     oc = Outcome('exit', value=e.code, exc=e)
                 except Exception as e:
                     oc = classify_exception(e)
+                    oc.escaped = True
         finally:
             if old:
                 os.chdir(old)
